@@ -216,10 +216,13 @@ impl<T: Qcow2IoOps> Qcow2Dev<T> {
                             if let Entry::Vacant(slot) = cluster_map.entry(key) {
                                 #[cfg(qcow2_rs_verif)]
                                 crate::verif::probe("fce:wait-map-read");
-                                let cls_map = self.new_cluster.read().await;
+                                // Take a handle of the per-cluster lock and let the
+                                // map go before waiting for it: whoever holds that
+                                // lock may need the map's write lock to finish.
+                                let cluster = self.new_cluster.read().await.get(&key).cloned();
                                 // keep this cluster locked, so that concurrent discard can
                                 // be avoided
-                                if let Some(cluster) = cls_map.get(&key) {
+                                if let Some(cluster) = cluster {
                                     #[cfg(qcow2_rs_verif)]
                                     crate::verif::probe("fce:wait-cluster-write");
                                     let mut locked_cls = cluster.write().await;
